@@ -4553,6 +4553,9 @@ void SymbolDatabase::printXml(std::ostream &out) const
             if (!scope->varlist.empty()) {
                 outs += "      <varlist>\n";
                 for (auto var = scope->varlist.cbegin(); var != scope->varlist.cend(); ++var) {
+                    // only variables that are written to <variables> below can be referenced
+                    if (var->declarationId() >= mVariableList.size() || mVariableList[var->declarationId()] != &*var)
+                        continue;
                     outs += "        <var id=\"";
                     outs += id_string(&*var);
                     outs += "\"/>\n";
